@@ -298,15 +298,27 @@ def icpert_case(task):
                               verbose=False)
     t = 0.05 * sol.t_today
     amp = tuple(amp_scale * a_ for a_ in (1e-3, 0.7e-3, 0.4e-3))
-    Rc = ic.Rc_func(fd.x, fd.y, fd.z, amp, (L, L, L))
+    # the bundled Rc_func is a sum of 1D sines (all mixed derivatives
+    # vanish); add terms coupling every pair of directions
+    k = 2 * np.pi / L
+    Rc = ic.Rc_func(fd.x, fd.y, fd.z, amp, (L, L, L)) + amp[0] * (
+        0.6 * np.sin(k * (fd.y + fd.z)) + 0.5 * np.sin(k * (fd.x - fd.y))
+        + 0.4 * np.sin(k * fd.x) * np.sin(k * fd.z))
     with quiet():
         g = ic.gammadown3(sol, fd, t, Rc)
         K = ic.Kdown3(sol, fd, t, Rc)
         ht = 1e-3 * t
         dtg = sum(W1[i] * ic.gammadown3(sol, fd, t + o * ht, Rc)
                   for i, o in enumerate(P8) if W1[i] != 0) / ht
-    e = float(np.abs(K + 0.5 * dtg).max() / np.abs(K).max())
-    if not e < 1e-7:
+    # component by component, each on its own scale (the off-diagonal
+    # perturbations are tiny next to the background)
+    e = 0.0
+    for i in range(3):
+        for j in range(3):
+            ref_ = -0.5 * dtg[i, j]
+            e = max(e, float(np.abs(K[i, j] - ref_).max()
+                             / max(np.abs(ref_).max(), 1e-300)))
+    if not e < 1e-6:
         bad.append(('K=-1/2 dt gamma on EdS', e))
     with quiet():
         rel = AurelCore(fd, verbose=False)
